@@ -312,6 +312,9 @@ func (l *listener) Stop() error {
 	verifhook.At("listener.Stop.closeConns", l)
 	for conn := range conns {
 		conn.Close()
+		// removeConn no longer finds these connections in the registry
+		l.stats.CxDestroyTotal.Inc()
+		l.stats.CxActive.Dec()
 	}
 	verifhook.At("listener.Stop.waitDone", l)
 	<-l.done
